@@ -69,15 +69,18 @@ func (h *httpSpec) build(keyConfigured bool) (req []byte, class string, authoris
 		hdr = append(hdr, name+": "+keyVal[km])
 	}
 	body := ""
-	switch ((h.BodyKind % 5) + 5) % 5 {
+	switch bk := h.bodyKind(); bk {
 	case 0:
 		body = "put(" + h.marker() + ")"
 	case 1:
 		body = "no-such-action(" + h.marker() + ")"
 	case 3:
 		body = "up\r\ndown"
-	case 4:
-		body = "execute-silent(EX 9)+put(" + h.marker() + ")"
+	default:
+		if bk >= 4 {
+			// every action that runs a command (a non-local listener drops them unless --listen-unsafe)
+			body = c16ExecActions[bk-4] + "(EX 9)+put(" + h.marker() + ")"
+		}
 	}
 	valid := true
 	switch ((h.LenMode % 6) + 6) % 6 {
@@ -114,7 +117,7 @@ func (h *httpSpec) build(keyConfigured bool) (req []byte, class string, authoris
 		return req, class, authorised
 	case isPost:
 		req = []byte(line + "\r\n" + strings.Join(append(hdr, ""), "\r\n") + "\r\n" + body)
-		if bk := ((h.BodyKind % 5) + 5) % 5; valid && (bk == 0 || bk == 4) {
+		if bk := h.bodyKind(); valid && (bk == 0 || bk >= 4) {
 			class = "post-valid"
 		} else if valid && bk == 3 {
 			class = "post-crlf"
@@ -154,6 +157,16 @@ type c16Plan struct {
 	UnsafeFirst bool `json:"unsafe_first"`
 }
 
+// actions that start a process (man page: everything that takes a command)
+var c16ExecActions = []string{"execute-silent", "transform-ghost", "transform-search", "transform-nth", "transform-pointer",
+	"transform-header-label", "transform-input-label", "transform-list-label", "transform-border-label", "transform-preview-label",
+	"transform-header", "transform-prompt", "transform", "preview", "change-preview"}
+
+func (h *httpSpec) bodyKind() int {
+	n := 4 + len(c16ExecActions)
+	return ((h.BodyKind % n) + n) % n
+}
+
 func genHTTPSpec(r *zsim.Rng, id int) httpSpec {
 	h := httpSpec{ID: id, Method: "POST", Path: "/", Version: "HTTP/1.1"}
 	switch r.Intn(10) {
@@ -175,7 +188,7 @@ func genHTTPSpec(r *zsim.Rng, id int) httpSpec {
 		}
 		h.KeyMode = r.Intn(2)
 	case 8: // invalid / empty action list, embedded CRLF, process-executing action
-		h.BodyKind = 1 + r.Intn(4)
+		h.BodyKind = 1 + r.Intn(3+len(c16ExecActions))
 		h.KeyMode = []int{0, 1, 1}[r.Intn(3)]
 	default: // arbitrary bytes
 		n := r.Range(0, 60)
@@ -224,7 +237,7 @@ func genC16Plan(r *zsim.Rng) *c16Plan {
 	}
 	// a process-executing action sent over the network (must be filtered on a non-local listener unless --listen-unsafe)
 	if r.Chance(1, 2) {
-		p.HTTP = append(p.HTTP, httpSpec{ID: n, Method: "POST", Path: "/", Version: "HTTP/1.1", KeyMode: 1, BodyKind: 4, Wait: true})
+		p.HTTP = append(p.HTTP, httpSpec{ID: n, Method: "POST", Path: "/", Version: "HTTP/1.1", KeyMode: 1, BodyKind: 4 + r.Intn(len(c16ExecActions)), Wait: true})
 		p.Events = append(p.Events, sysEvent{Kind: "http", Cols: n})
 		n++
 	}
@@ -292,7 +305,7 @@ func runC16(c *runCtx) {
 		}
 	}()
 	// a bare port and ":port" mean localhost (man page: "--listen[=[ADDR:]PORT]", default address localhost)
-	local := plan.Addr == "6266" || strings.HasPrefix(plan.Addr, ":") || strings.HasPrefix(plan.Addr, "localhost") || strings.HasPrefix(plan.Addr, "127.0.0.1")
+	local := plan.Addr != "" && strings.Trim(plan.Addr, "0123456789") == "" || strings.HasPrefix(plan.Addr, ":") || strings.HasPrefix(plan.Addr, "localhost") || strings.HasPrefix(plan.Addr, "127.0.0.1")
 	results := make([]*httpResult, len(plan.HTTP))
 	pending := 0
 	sysEventHandlers["http"] = func(r *sysRun, ev *sysEvent) {
